@@ -284,6 +284,8 @@ func (g *gen) genStatement(typ types.Type, this, that string) error {
 			p.P("return 1")
 			p.Out()
 			p.P(`}`)
+		case types.UnsafePointer:
+			return fmt.Errorf("unsupported compare type: %s", g.TypeString(typ))
 		case types.Bool:
 			p.P("if %s == %s {", this, that)
 			p.In()
